@@ -49,13 +49,42 @@ static std::atomic<int> g_caseBad(0);
 
 static void Viol(const std::string & key, const std::string & detail) { if (g_caseBad.exchange(1) == 0) vh::viol(key, detail); }
 
+// ---- online park tracker: a wrapper around hookrt::hook.  The RW event sites are passed while _stateMutex is held, so these counters
+// follow the real waiting tables exactly; they let a thread that has just downgraded (released its last write lock, kept a read lock)
+// wait WITHOUT A TIMEOUT for the readers the documented semantics oblige the mutex to admit now (a lost wake-up = proved deadlock).
+static std::atomic<const void *> g_trkObj(NULL);     // the mutex under test (NULL = tracker off)
+static std::atomic<uint32_t> g_parkR[MAXT];          // odd while thread t is parked as reader
+static std::atomic<int> g_parkWFlag[MAXT];
+static std::atomic<int> g_nParkedW(0);
+static std::atomic<uint32_t> g_wParkEvents(0);
+static std::atomic<uint32_t> g_evGen(0);             // futex word: bumped whenever a parked reader leaves the table or a writer parks
+static void TrackerHook(int site, const void * obj, long arg)
+{
+   if (site >= MVH_RW_READER_PARKED && site <= MVH_RW_WRITER_TIMEDOUT && obj == g_trkObj.load(std::memory_order_relaxed)) {
+      const int t = hookrt::role();
+      if (t >= 0 && t < MAXT) {
+         bool bump = false;
+         switch (site) {
+         case MVH_RW_READER_PARKED: g_parkR[t].fetch_add(1, std::memory_order_relaxed); break;
+         case MVH_RW_READER_ADMITTED: case MVH_RW_READER_TIMEDOUT: if (g_parkR[t].load(std::memory_order_relaxed) & 1) { g_parkR[t].fetch_add(1, std::memory_order_relaxed); bump = true; } break;
+         case MVH_RW_WRITER_PARKED: g_parkWFlag[t].store(1, std::memory_order_relaxed); g_nParkedW.fetch_add(1, std::memory_order_relaxed); g_wParkEvents.fetch_add(1, std::memory_order_release); bump = true; break;
+         case MVH_RW_WRITER_ADMITTED: case MVH_RW_WRITER_TIMEDOUT: if (g_parkWFlag[t].load(std::memory_order_relaxed)) { g_parkWFlag[t].store(0, std::memory_order_relaxed); g_nParkedW.fetch_sub(1, std::memory_order_relaxed); } break;
+         default: break;
+         }
+         if (bump) { g_evGen.fetch_add(1, std::memory_order_release); FutexWakeAll(&g_evGen); }
+      }
+   }
+   hookrt::hook(site, obj, arg);
+}
+static void TrackerReset(const void * obj) { for (int t = 0; t < MAXT; t++) { g_parkR[t].store(0); g_parkWFlag[t].store(0); } g_nParkedW.store(0); g_wParkEvents.store(0); g_evGen.store(0); g_trkObj.store(obj); }
+
 struct Mark { uint64_t seq; uint8_t end, op, ok, upgrade; int toKind; };   // toKind: 0 try, 1 timed, 2 untimed
 struct TStat {
-   long acqR, acqW, recR, recW, upg, upgTry, upgTimed, upgUntimed, upgFail, failTry, failTimed, overlapRR, holdWaits, holdScans, badUnlocks, unlocks, downgrades, pastDeadline, failBeforeDeadline, maxOver, maxOverUpg;
+   long acqR, acqW, recR, recW, upg, upgTry, upgTimed, upgUntimed, upgFail, failTry, failTimed, overlapRR, holdWaits, holdScans, badUnlocks, unlocks, downgrades, pastDeadline, failBeforeDeadline, maxOver, maxOverUpg, dgParked, rvWaits, rvAdmitted, rvAbandoned, rvSkippedW, rvMulti, readFirst, dgDeepW, dgDeepR;
    TStat() { memset(this, 0, sizeof(*this)); }
 };
 struct Th {
-   int me, nT, nOps; uint64_t seed; const ReaderWriterMutex * m; bool f24b; std::string params;
+   int me, nT, nOps; uint64_t seed; const ReaderWriterMutex * m; bool f24b; bool pW; std::string params;
    std::vector<Mark> marks; TStat st;
 };
 
@@ -90,6 +119,32 @@ static uint64 PickTimeout(vh::Rng & r, int & kind)
    case 4: kind = 1; if (r.R(4) == 0) return GetRunTime64() - 1 - r.R(1000);              // a deadline that has already passed
            return GetRunTime64() + 100 + r.R(400);
    default: kind = 2; return MUSCLE_TIME_NEVER;
+   }
+}
+
+// Called by a thread that has just released its LAST write lock while keeping a read lock (wEv0 / nW0 = writer-park event count and
+// number of parked writers read BEFORE that UnlockReadWrite()).  From that moment no thread holds the write lock and none can get it
+// while this thread keeps reading, so every reader that parked because of the write holder must be let in -- unless, under writer
+// preference, a writer is (or becomes) parked: then nothing is demanded and the wait is abandoned.  The wait has no timeout.
+static void RendezvousAfterDowngrade(Th * th, uint32_t wEv0, int nW0)
+{
+   TStat & st = th->st; const bool pW = th->pW;
+   int who[MAXT]; uint32_t val[MAXT]; int n = 0;
+   for (int t = 0; t < th->nT; t++) if (t != th->me) {
+      const uint32_t v = g_parkR[t].load(std::memory_order_relaxed);
+      if (v & 1) { who[n] = t; val[n] = v; n++; }
+   }
+   if (n == 0) return;
+   st.dgParked++;
+   if (pW && (nW0 > 0 || g_nParkedW.load(std::memory_order_relaxed) > 0 || g_wParkEvents.load(std::memory_order_acquire) != wEv0)) { st.rvSkippedW++; return; }
+   st.rvWaits++; if (n > 1) st.rvMulti++;
+   for (int i = 0; i < n; i++) {
+      for (;;) {
+         const uint32_t g0 = g_evGen.load(std::memory_order_acquire);
+         if (g_parkR[who[i]].load(std::memory_order_relaxed) != val[i]) { st.rvAdmitted++; break; }
+         if (pW && g_wParkEvents.load(std::memory_order_acquire) != wEv0) { st.rvAbandoned++; return; }
+         FutexWait(&g_evGen, g0);
+      }
    }
 }
 
@@ -144,12 +199,15 @@ static void Script(Th * th)
          }
       }
       else if (c >= 8 && c <= 11 && myW > 0) {                                            // ---- release write (a downgrade when read locks stay)
-         g_wr[me].fetch_sub(1, std::memory_order_relaxed); myW--; st.unlocks++; if (myW == 0 && myR > 0) st.downgrades++;
+         g_wr[me].fetch_sub(1, std::memory_order_relaxed); myW--; st.unlocks++;
+         const bool downgrade = (myW == 0 && myR > 0); if (downgrade) { st.downgrades++; if (myR > 1) st.dgDeepR++; }
+         const uint32_t wEv0 = g_wParkEvents.load(std::memory_order_acquire); const int nW0 = g_nParkedW.load(std::memory_order_relaxed);
          PushMark(th, false, OP_URW, false, false, 2); const status_t s = m->UnlockReadWrite(); PushMark(th, true, OP_URW, s.IsOK(), false, 2);
          if (s.IsError()) Viol("api|unlock-failed-while-holding", vh::fmt("thread %d: UnlockReadWrite() returned %s with write depth %d, read depth %d before the call | %s", me, s(), myW + 1, myR, th->params.c_str()));
+         else if (downgrade && r.R(8) != 0) RendezvousAfterDowngrade(th, wEv0, nW0);
       }
       else if (c >= 12 && c <= 15 && myR > 0) {                                          // ---- release read
-         g_rd[me].fetch_sub(1, std::memory_order_relaxed); myR--; st.unlocks++;
+         g_rd[me].fetch_sub(1, std::memory_order_relaxed); myR--; st.unlocks++; if (myR == 0 && myW > 0) { st.readFirst++; if (myW > 1) st.dgDeepW++; }
          PushMark(th, false, OP_URO, false, false, 2); const status_t s = m->UnlockReadOnly(); PushMark(th, true, OP_URO, s.IsOK(), false, 2);
          if (s.IsError()) Viol("api|unlock-failed-while-holding", vh::fmt("thread %d: UnlockReadOnly() returned %s with read depth %d, write depth %d before the call | %s", me, s(), myR + 1, myW, th->params.c_str()));
       }
@@ -290,14 +348,15 @@ static void RunCase(long k, uint64_t cs, bool f24b)
    ReaderWriterMutex * m = new ReaderWriterMutex("c18", pW);
    const std::string params = vh::fmt("case %ld threads=%d preferWriters=%d placement=%s", k, nT, (int)pW, plName.c_str());
    vh::note(params);
+   TrackerReset(m);
    Th th[MAXT];
-   for (int t = 0; t < nT; t++) { th[t].me = t; th[t].nT = nT; th[t].nOps = 40 + g.R(g.R(5) == 0 ? 800 : 250); th[t].seed = g.next(); th[t].m = m; th[t].f24b = f24b; th[t].params = params; th[t].marks.reserve(2 * (th[t].nOps + 16) + 64); }
+   for (int t = 0; t < nT; t++) { th[t].me = t; th[t].nT = nT; th[t].nOps = 40 + g.R(g.R(5) == 0 ? 800 : 250); th[t].seed = g.next(); th[t].m = m; th[t].f24b = f24b; th[t].pW = pW; th[t].params = params; th[t].marks.reserve(2 * (th[t].nOps + 16) + 64); }
    long hits0[3], del0[3]; for (int i = 0; i < 3; i++) { hits0[i] = hookrt::hits(DELAY_SITES[i]); del0[i] = hookrt::delays(DELAY_SITES[i]); }
    std::vector<std::thread> threads;
    for (int t = 0; t < nT; t++) threads.push_back(std::thread(Script, &th[t]));
    g_go.store(1, std::memory_order_relaxed);
    for (int t = 0; t < nT; t++) threads[t].join();          // untimed: a stuck script is decided by the driver's deadlock detector
-   hookrt::record_sites(0); hookrt::disarm_all();
+   hookrt::record_sites(0); hookrt::disarm_all(); g_trkObj.store(NULL);
 
    // ---- merge and replay
    const uint64_t nEv = hookrt::g_ringNext.load();
@@ -320,12 +379,16 @@ static void RunCase(long k, uint64_t cs, bool f24b)
    delete m;
 
    // ---- observation counters
-   TStat s; for (int t = 0; t < nT; t++) { const TStat & x = th[t].st; s.acqR += x.acqR; s.acqW += x.acqW; s.recR += x.recR; s.recW += x.recW; s.upg += x.upg; s.upgTry += x.upgTry; s.upgTimed += x.upgTimed; s.upgUntimed += x.upgUntimed; s.upgFail += x.upgFail; s.failTry += x.failTry; s.failTimed += x.failTimed; s.overlapRR += x.overlapRR; s.holdWaits += x.holdWaits; s.holdScans += x.holdScans; s.badUnlocks += x.badUnlocks; s.unlocks += x.unlocks; s.downgrades += x.downgrades; s.pastDeadline += x.pastDeadline; s.failBeforeDeadline += x.failBeforeDeadline; if (x.maxOver > s.maxOver) s.maxOver = x.maxOver; if (x.maxOverUpg > s.maxOverUpg) s.maxOverUpg = x.maxOverUpg; }
+   TStat s; for (int t = 0; t < nT; t++) { const TStat & x = th[t].st; s.acqR += x.acqR; s.acqW += x.acqW; s.recR += x.recR; s.recW += x.recW; s.upg += x.upg; s.upgTry += x.upgTry; s.upgTimed += x.upgTimed; s.upgUntimed += x.upgUntimed; s.upgFail += x.upgFail; s.failTry += x.failTry; s.failTimed += x.failTimed; s.overlapRR += x.overlapRR; s.holdWaits += x.holdWaits; s.holdScans += x.holdScans; s.badUnlocks += x.badUnlocks; s.unlocks += x.unlocks; s.downgrades += x.downgrades; s.pastDeadline += x.pastDeadline; s.failBeforeDeadline += x.failBeforeDeadline; s.dgParked += x.dgParked; s.rvWaits += x.rvWaits; s.rvAdmitted += x.rvAdmitted; s.rvAbandoned += x.rvAbandoned; s.rvSkippedW += x.rvSkippedW; s.rvMulti += x.rvMulti; s.readFirst += x.readFirst; s.dgDeepW += x.dgDeepW; s.dgDeepR += x.dgDeepR; if (x.maxOver > s.maxOver) s.maxOver = x.maxOver; if (x.maxOverUpg > s.maxOverUpg) s.maxOverUpg = x.maxOverUpg; }
    vh::stat("scripts", nT); vh::stat(pW ? "cases_prefer_writers" : "cases_prefer_readers"); vh::stat(vh::fmt("cases_threads_%d", nT)); vh::stat("pl_" + plName);
    vh::stat("acq_read", s.acqR); vh::stat("acq_write", s.acqW); vh::stat("acq_read_recursive", s.recR); vh::stat("acq_write_recursive", s.recW);
    vh::stat("upgrade_calls", s.upg); vh::stat("upgrade_calls_try", s.upgTry); vh::stat("upgrade_calls_timed", s.upgTimed); vh::stat("upgrade_calls_untimed", s.upgUntimed); vh::stat("upgrade_calls_failed", s.upgFail);
    vh::stat("failed_try", s.failTry); vh::stat("failed_timed", s.failTimed); vh::stat("reader_overlaps_seen", s.overlapRR); vh::stat("hold_until_scans", s.holdScans); vh::stat("hold_until_waits", s.holdWaits);
-   vh::stat("refused_unlocks_without_holding", s.badUnlocks); vh::stat("unlocks", s.unlocks); vh::stat("downgrades", s.downgrades);
+   vh::stat("refused_unlocks_without_holding", s.badUnlocks); vh::stat("unlocks", s.unlocks); vh::stat("downgrade_by_unlocking_write_first", s.downgrades); vh::stat("downgrade_keeping_read_depth_over_1", s.dgDeepR);
+   vh::stat("both_held_read_released_first", s.readFirst); vh::stat("both_held_read_released_first_write_depth_over_1", s.dgDeepW);
+   vh::stat("downgrades_with_parked_reader", s.dgParked); vh::stat("rendezvous_waits_after_downgrade", s.rvWaits); vh::stat("rendezvous_with_several_parked_readers", s.rvMulti);
+   vh::stat("readers_admitted_after_partial_release", s.rvAdmitted); vh::stat("rendezvous_abandoned_writer_parked", s.rvAbandoned); vh::stat("rendezvous_not_demanded_writer_parked", s.rvSkippedW);
+   vh::stat(pW ? "rendezvous_waits_prefer_writers" : "rendezvous_waits_prefer_readers", s.rvWaits);
    vh::stat("timed_failed_returned_past_deadline", s.pastDeadline); vh::stat("unspecified_timed_failed_returned_before_deadline", s.failBeforeDeadline);
    vh::statmax("max_overshoot_us", s.maxOver); vh::statmax("max_overshoot_timed_upgrade_us", s.maxOverUpg);
    if (replayed) {
@@ -392,6 +455,63 @@ static void ScenarioTimedUpgradeVersusNewWriter(const std::string & keyBase, boo
    if (ret.IsError() && ret != B_TIMED_OUT) ScFail(keyBase + "|unexpected-status", ctx + vh::fmt(": T1's call returned %s", ret()));
    if (!unlockOK || extraUnlockOK) ScFail(keyBase + "|holdings-changed-by-failed-upgrade", ctx + vh::fmt(": T1's call returned %s; afterwards UnlockReadOnly() %s, a second one %s", ret(), unlockOK ? "succeeded" : "FAILED", extraUnlockOK ? "SUCCEEDED" : "failed as it should"));
    vh::stat("scenario_timed_upgrade_versus_new_writer");
+}
+
+// Seeded change C18-5 shape: A holds read AND write (either acquisition order, recursion depths dW / dR), nReaders threads park in
+// LockReadOnly(), optionally a writer parks too; A releases one mode completely first.  writeFirst: the lock is then read-only, so the
+// parked readers must get in WHILE A STILL READS (A waits for them without a timeout) -- except under writer preference with a parked
+// writer, where nothing is demanded until A has left.  !writeFirst: A still writes after the first release, nobody may enter; after the
+// second release everybody must get through (untimed joins).
+static void ScenarioReleaseBothModes(const std::string & keyBase, bool pW, bool readAcquiredFirst, bool writeFirst, int dW, int dR, int nReaders, bool withWriter)
+{
+   ReaderWriterMutex m("both", pW); Gate inside, leave; std::atomic<int> insideWhileWriteHeld(0); std::atomic<int> aWrites(1);
+   const long pr0 = hookrt::hits(MVH_RW_READER_PARKED), pw0 = hookrt::hits(MVH_RW_WRITER_PARKED);
+   hookrt::set_role(0);
+   bool ok = true;
+   if (readAcquiredFirst) { for (int i = 0; i < dR; i++) ok &= m.LockReadOnly().IsOK(); for (int i = 0; i < dW; i++) ok &= m.LockReadWrite().IsOK(); }
+   else                   { for (int i = 0; i < dW; i++) ok &= m.LockReadWrite().IsOK(); for (int i = 0; i < dR; i++) ok &= m.LockReadOnly().IsOK(); }
+   if (!ok) ScFail(keyBase + "|acquire-failed", "A could not take read and write together on a fresh mutex");
+   std::vector<std::thread> rd;
+   for (int i = 0; i < nReaders; i++) rd.push_back(std::thread([&, i] { hookrt::set_role(1 + i); (void)m.LockReadOnly(); if (aWrites.load()) insideWhileWriteHeld.fetch_add(1); inside.add(); leave.wait_ge(1); (void)m.UnlockReadOnly(); }));
+   WaitHits(MVH_RW_READER_PARKED, pr0 + nReaders);
+   std::thread * wr = NULL;
+   if (withWriter) { wr = new std::thread([&] { hookrt::set_role(3); (void)m.LockReadWrite(); if (aWrites.load()) insideWhileWriteHeld.fetch_add(1); (void)m.UnlockReadWrite(); }); WaitHits(MVH_RW_WRITER_PARKED, pw0 + 1); }
+   const std::string ctx = vh::fmt("preferWriters=%d, A took %s (write depth %d, read depth %d), %d reader(s)%s parked, A releases %s first", (int)pW, readAcquiredFirst ? "read then write" : "write then read", dW, dR, nReaders, withWriter ? " and a writer" : "", writeFirst ? "write" : "read");
+   if (writeFirst) {
+      for (int i = 0; i < dW; i++) { if (i == dW - 1) aWrites.store(0); if (m.UnlockReadWrite().IsError()) ScFail(keyBase + "|unlock-failed", ctx + ": UnlockReadWrite() failed"); }
+      if (!(pW && withWriter)) { inside.wait_ge(nReaders); vh::stat("readers_admitted_after_partial_release", nReaders); }   // untimed: a lost wake-up is a proved deadlock
+      else vh::stat("scenario_downgrade_nothing_demanded_writer_parked");
+      for (int i = 0; i < dR; i++) if (m.UnlockReadOnly().IsError()) ScFail(keyBase + "|unlock-failed", ctx + ": UnlockReadOnly() failed");
+      vh::stat("downgrade_by_unlocking_write_first");
+   }
+   else {
+      for (int i = 0; i < dR; i++) if (m.UnlockReadOnly().IsError()) ScFail(keyBase + "|unlock-failed", ctx + ": UnlockReadOnly() failed");
+      for (int i = 0; i < dW; i++) { if (i == dW - 1) aWrites.store(0); if (m.UnlockReadWrite().IsError()) ScFail(keyBase + "|unlock-failed", ctx + ": UnlockReadWrite() failed"); }
+      vh::stat("both_held_read_released_first");
+   }
+   inside.wait_ge(nReaders); leave.set(1);
+   for (size_t i = 0; i < rd.size(); i++) rd[i].join();
+   if (wr) { wr->join(); delete wr; }
+   hookrt::set_role(-1);
+   if (insideWhileWriteHeld.load()) ScFail(keyBase + "|entered-while-write-held", ctx + vh::fmt(": %d thread(s) got in while A still held the write lock", insideWhileWriteHeld.load()));
+   if (m.TryLockReadWrite().IsError()) ScFail(keyBase + "|lock-not-free", ctx + ": the lock is not free afterwards"); else (void)m.UnlockReadWrite();
+}
+
+// Candidate finding (NOT part of a leg, see checks/C18.py): writer preference, reader A holds, writer W parks with a deadline, reader B arrives and
+// parks behind W, W times out.  No writer holds or waits any more, yet nobody wakes B while A keeps reading; A waits for B without a timeout.
+static void ScenarioReaderBehindTimedOutWriter(bool pW)
+{
+   ReaderWriterMutex m("stranded", pW); Gate inside; status_t ws = B_NO_ERROR;
+   const long pr0 = hookrt::hits(MVH_RW_READER_PARKED), pw0 = hookrt::hits(MVH_RW_WRITER_PARKED), to0 = hookrt::hits(MVH_RW_WRITER_TIMEDOUT);
+   hookrt::set_role(0); (void)m.LockReadOnly();
+   std::thread w([&] { hookrt::set_role(1); ws = m.LockReadWrite(GetRunTime64() + MillisToMicros(30)); if (ws.IsOK()) (void)m.UnlockReadWrite(); });
+   WaitHits(MVH_RW_WRITER_PARKED, pw0 + 1);
+   std::thread b([&] { hookrt::set_role(2); (void)m.LockReadOnly(); inside.add(); (void)m.UnlockReadOnly(); });
+   if (pW) WaitHits(MVH_RW_READER_PARKED, pr0 + 1);
+   WaitHits(MVH_RW_WRITER_TIMEDOUT, to0 + 1);
+   inside.wait_ge(1);                 // untimed
+   (void)m.UnlockReadOnly(); w.join(); b.join(); hookrt::set_role(-1);
+   vh::stat("scenario_reader_behind_timed_out_writer_completed");
 }
 
 static void Regress()
@@ -464,7 +584,14 @@ static void Regress()
       if (s1 != B_TIMED_OUT || s2 != B_TIMED_OUT) ScFail("regress|timed-acquire-while-write-held", vh::fmt("LockReadWrite / LockReadOnly(now+1ms) while another thread holds the write lock throughout returned %s / %s", s1(), s2()));
       if (m.TryLockReadWrite().IsError()) ScFail("regress|lock-not-free", "lock not free after a timed-out waiter and a served waiter"); else (void)m.UnlockReadWrite();
    }
-   vh::distinct(1); vh::distinct(2); vh::distinct(3); vh::distinct(4); vh::distinct(5);
+   // ---- case 5: the four scenarios of seeded/C18-5/demo.cpp: A holds both modes, B parked in LockReadOnly(), A releases write only and waits for B
+   vh::begin_case(5); g_scBad = false; vh::note("downgrade wakes parked readers (seeded C18-5 demo: both acquisition orders x both preferences)");
+   for (int pw = 0; pw < 2; pw++) for (int rf = 0; rf < 2; rf++) ScenarioReleaseBothModes("regress-downgrade", pw != 0, rf != 0, true, 1, 1, 1, false);
+   // ---- case 6: role combinations: several parked readers, a parked writer as well, recursion depths > 1, either release order
+   vh::begin_case(6); g_scBad = false; vh::note("release of both modes in either order, role combinations");
+   for (int pw = 0; pw < 2; pw++) for (int rf = 0; rf < 2; rf++) for (int wf = 0; wf < 2; wf++) for (int ww = 0; ww < 2; ww++)
+      ScenarioReleaseBothModes("regress-downgrade", pw != 0, rf != 0, wf != 0, 1 + (pw + rf + ww) % 3, 1 + (rf + wf + ww + 1) % 3, 1 + (pw + wf) % 2 + (ww ? 0 : 1) * ((rf + pw) % 2), ww != 0);
+   vh::distinct(1); vh::distinct(2); vh::distinct(3); vh::distinct(4); vh::distinct(5); vh::distinct(6); vh::distinct(7);
 }
 
 int main(int argc, char ** argv)
@@ -472,9 +599,11 @@ int main(int argc, char ** argv)
    CompleteSetupSystem css;
    vh::init(argc, argv);
    hookrt::install();
+   ::muscle::MuscleVerifHookHolder<0>::_func = TrackerHook;   // the tracker calls hookrt::hook itself
    vh::Ctx & c = vh::ctx();
    const std::string mode = vh::opt("mode", "model");
    if (mode == "regress") { Regress(); return vh::finish(); }
+   if (mode == "stranded") { hookrt::record_sites(0); for (long k = c.from; k < c.from + c.cases; k++) { vh::begin_case(k); vh::note("reader parked behind a writer that times out while another reader holds"); ScenarioReaderBehindTimedOutWriter((k % 4) != 3); vh::distinct((uint64_t)k + 100, true); } return vh::finish(); }
    const bool f24b = (mode == "f24b");
    for (long k = c.from; k < c.from + c.cases; k++) {
       vh::begin_case(k);
